@@ -196,28 +196,39 @@ def jetexpand_ode_via_jvp(*, num: int) -> JetExpansionAlg[problems.JetOde]:
         if vf.is_jet_lifted:
             raise ValueError
 
-        def vf_wrapped(*jet_coords):
-            [vfx] = vf.vector_field(jet_coords=jet_coords, t=t)
+        # Treat the time as an additional state component with derivative one
+        # (so that the recursion also differentiates the explicit time-dependence).
+        # (Integer-valued times are promoted to floating-point numbers
+        # because tangents of integers are not well-defined.)
+        t_ = 1.0 * np.asarray(t)
+
+        def vf_wrapped(*jet_coords_and_t):
+            *jet_coords, s = jet_coords_and_t
+            [vfx] = vf.vector_field(jet_coords=jet_coords, t=s)
             return vfx
 
         g_n, g_0 = vf_wrapped, vf_wrapped
 
-        taylor_coeffs = [*inits, vf_wrapped(*inits)]
+        taylor_coeffs = [*inits, vf_wrapped(*inits, t_)]
         for _ in range(num - 1):
             g_n = _fwd_recursion_iterate(fun_n=g_n, fun_0=g_0)
-            taylor_coeffs = [*taylor_coeffs, g_n(*inits)]
+            taylor_coeffs = [*taylor_coeffs, g_n(*inits, t_)]
         return taylor_coeffs, {}
 
     return expand
 
 
 def _fwd_recursion_iterate(*, fun_n, fun_0):
-    r"""Increment $F_{n+1}(x) = \langle (JF_n)(x), f_0(x) \rangle$."""
+    r"""Increment $F_{n+1}(x, t) = \langle (JF_n)(x, t), (f_0(x, t), 1) \rangle$."""
 
-    def df(*jet_coords: *tuple[T]) -> list[T]:
-        # Assign primals and tangents for the JVP
-        vals = (*jet_coords, fun_0(*jet_coords))
-        primals_in, tangents_in = vals[:-1], vals[1:]
+    def df(*jet_coords_and_t: *tuple[T]) -> list[T]:
+        *jet_coords, t = jet_coords_and_t
+
+        # Assign primals and tangents for the JVP.
+        # The time is the final argument and its tangent is dt/dt = 1.
+        vals = (*jet_coords, fun_0(*jet_coords, t))
+        primals_in = (*vals[:-1], t)
+        tangents_in = (*vals[1:], np.ones_like(t))
 
         _, tangents_out = func.jvp(fun_n, primals_in, tangents_in)
         return tangents_out
